@@ -160,7 +160,8 @@ pub open spec fn chain_n(c: CState, n: nat) -> bool {
             stored(c, c.children[p]) && c.versions[c.children[p]].parent_version_id == p
     &&& (n == 0 <==> c.latest == nil_id())
     // the stored snapshot is for a version on the chain or for its base, and has its data
-    &&& (c.snapshot is Some ==> exists|k: nat| k <= n && back(c, k) == c.snapshot->Some_0.version_id)
+    &&& (c.snapshot is Some ==> c.snapshot->Some_0.version_id != nil_id()
+            && exists|k: nat| k <= n && back(c, k) == c.snapshot->Some_0.version_id)
     &&& (c.snapshot is Some <==> c.snapshot_data is Some)
 }
 
